@@ -231,6 +231,22 @@ def ref_moved(items, i, j, l):
     return items[:j] + run + items[j:]
 
 
+# result lists: written without parentheses (one unnamed result) or not at all (no result), a list all the same
+RES_PATS = [["..."], ["...", "error"], ["error", "..."], ["...", "error", "..."], ["int", "...", "error"]]
+RES_LISTS = [([], ""), (["error"], "error"), (["error"], "(error)"), (["int"], "int"), (["int"], "(int)"), (["int", "error"], "(int, error)"),
+             (["error", "int"], "(error, int)"), (["int", "bool", "error"], "(int, bool, error)")]
+# ('func r() ()' is left out: go/printer drops the empty parentheses of every function it prints, matched or not)
+
+
+def results_patch(pat):
+    return ("@@\nvar f identifier\n@@\n func f() (%s) {\n-  a()\n+  b()\n }\n" % ", ".join(pat)).encode()
+
+
+def results_file():
+    return ("package p\n\n" + "\n".join("func r%d() %s {\n\ta()\n}\n" % (n, txt) if txt else "func r%d() {\n\ta()\n}\n" % n
+                                          for n, (_, txt) in enumerate(RES_LISTS))).encode()
+
+
 def file_stmts(ls):
     fns = []
     for k, l in enumerate(ls):
@@ -304,6 +320,9 @@ def main():
     for pat in mode_patterns(ck.rng, 300 if thorough else 70):
         pairs.append(("p.patch", patch_stmts_modes(pat), "a.go", file_stmts(ls)))
         names.append("stmts-modes:%s" % " ".join(sy + (":" + m if m else "") for sy, m in pat)); meta.append(("stmts-modes", pat, None, None))
+    for pat in RES_PATS:
+        pairs.append(("p.patch", results_patch(pat), "a.go", results_file()))
+        names.append("results:(%s)" % ", ".join(pat)); meta.append(("results", pat, None, None))
     for wrapped, items, i, j, pt in moved_patches():
         pairs.append(("p.patch", pt, "a.go", file_stmts(ls)))
         names.append("moved:%s%s -%d +%d" % ("if " if wrapped else "", " ".join(items), i, j)); meta.append(("moved", (wrapped, items, i, j), None, None))
@@ -403,6 +422,21 @@ def main():
                         ck.violation("statement pattern [%s] against block [%s]: expected %s, gopatch produced %s"
                                      % (" ".join(sy + (":" + m if m else "") for sy, m in pat), " ".join(l), want, got),
                                      {"patch": pair[1].decode(), "block": l, "expected": want, "got": got})
+        if kind == "results":
+            if o["skipped"]:
+                ck.violation("a result-list pattern (%s) is rejected" % name, {"patch": pair[1].decode()})
+            else:
+                out = (unb64(r["out"]) if r.get("out") else pair[3]).decode("utf-8", "replace")
+                for n, (l, txt) in enumerate(RES_LISTS):
+                    npairs += 1
+                    m = re.search(r"func r%d\(\)[^{]*\{\n\t(\w)\(\)\n\s*\}" % n, out)
+                    want = "b" if ref_match(pat, l) is not None else "a"
+                    if not m or m.group(1) != want:
+                        # F54: the parentheses of the pattern's list are matched as tokens
+                        fc = "result-list-without-parentheses" if (m and want == "b" and not txt.startswith("(")) else None
+                        ck.violation("result list pattern (%s) against 'func r() %s': %s" % (", ".join(pat), txt, "not matched although the list is an instance"
+                                     if want == "b" else "matched although the list is no instance"),
+                                     {"patch": pair[1].decode(), "function": "func r%d() %s" % (n, txt), "output": out[:1500]}, finding_class=fc)
         if kind == "moved":
             wrapped, items, i, j = pat
             if o["skipped"]:
